@@ -38,6 +38,7 @@ import (
 	"github.com/wi1dcard/fingerproxy/pkg/reverseproxy"
 	"verif/bubble"
 	"verif/ev"
+	"verif/mc"
 	"verif/ref/h2wire"
 )
 
@@ -167,9 +168,14 @@ func binCases() []binCase {
 // Ports come from below the kernel's ephemeral range, so nothing that binds port 0 (other checks, the children's
 // own metrics listeners) can take one between the probe and the child's bind; concurrent runs of this check start
 // at different offsets, and a child that still loses its port is detected (log line, certificate) and the case re-run.
-var nextPort = 20000 + (os.Getpid()*37)%11000
+var nextPort = -1
 
 func freePort() int {
+	if nextPort < 0 {
+		// every shard of one run has its own 700 ports; runs started at the same time differ by their process ids
+		shard, _ := mc.ShardFromEnv()
+		nextPort = 20000 + (shard%16)*700 + (os.Getpid()*7)%300
+	}
 	for {
 		nextPort++
 		if nextPort >= 32000 {
